@@ -219,6 +219,38 @@ def wrapper_intersect(tier):
             want = np.array([[0.5, 5.5], [1.5, 5.5], [1.5, 4.5], [2.5, 3.5]]) if filled else np.array([[0.5, 5.5], [1.5, 4.5], [2.5, 3.5]])
             out.append(('all-catchment-centres-reach-the-kernel', c.args[6].shape == want.shape and np.allclose(c.args[6], want),
                         dict(xll=xll, yll=yll, filled=filled, got=c.args[6].tolist())))
+    # the cells handed to the kernel are those of the catchment AT THE TIME OF THE CALL: an earlier intersect on one operand of a sum /
+    # difference (or on the same object before its area changes) must not leak into the next call
+    def centres_of(cells):
+        return np.array([[(k % 6) + 0.5, 6 - (k // 6) - 0.5] for k in cells])
+    for opname in ('add', 'sub', 'reassign'):
+        ca1, ca2 = G.Catchment('a', fine), G.Catchment('b', fine)
+        ca1._idxcells_area = np.array([0, 1, 7], dtype=np.int64)
+        ca1._idxcells_area_filled = ca1._idxcells_area.copy()
+        ca2._idxcells_area = np.array([7, 14, 21, 28], dtype=np.int64)
+        ca2._idxcells_area_filled = ca2._idxcells_area.copy()
+        coarse = G.Grid('g', 3, 3, cellsize=2.0)
+        behaviour = {'intersect': lambda c: (c.raw_args[7].__setitem__(0, 1), 0)[1], 'cell2coord': lambda c: real.cell2coord(*c.raw_args),
+                     'cell2rowcol': lambda c: real.cell2rowcol(*c.raw_args)}
+        rec = Recorder(behaviour)
+        with patched_module(G, 'c_hydrodiy_gis', rec):
+            try:
+                ca1.intersect(coarse)
+                if opname == 'add':
+                    ca = ca1 + ca2
+                elif opname == 'sub':
+                    ca = ca2 - ca1
+                else:
+                    ca = ca1
+                    ca._idxcells_area = np.array([20, 27], dtype=np.int64)
+                    ca._idxcells_area_filled = ca._idxcells_area.copy()
+                ca.intersect(coarse)
+            except Exception:
+                pass
+        calls = [c for c in rec.calls if c.name == 'intersect']
+        want = centres_of(sorted(map(int, ca._idxcells_area)))
+        ok = len(calls) == 2 and calls[1].args[6].shape == want.shape and np.allclose(calls[1].args[6], want)
+        out.append(('kernel-gets-the-current-catchment-cells-after-%s' % opname, ok, dict(got=calls[1].args[6].tolist() if len(calls) == 2 else None, want=want.tolist())))
     # voronoi works on the catchment cells (not the hole-filled area) and returns the kernel's weights
     ca = G.Catchment('c', fine)
     ca._idxcells_area = np.array([0, 1, 2, 6, 8, 12, 13, 14], dtype=np.int64)
